@@ -14,7 +14,7 @@ from harness.drivers import relative_driver as R
 
 ID = "C24"
 PROP_FILE = "Props/C24.v"
-THEOREMS = ["C24_relative_sets_are_offsets_partial", "C24_reset_trace_partial", "C24_reset_restores_all_partial", "C24_restored_spec"]
+THEOREMS = ["C24_relative_sets_are_offsets_partial", "C24_relative_sets_are_offsets_coupled_partial", "C24_reset_trace", "C24_reset_restores_all", "C24_restored_spec"]
 COQ_IMPORTS = ("From Coq Require Import PrimFloat.\nFrom BV Require Import Gen.Coalg Gen.PyGen Gen.Tie Gen.Paired Gen.Insert "
                "Gen.Relative Gen.TiePaired Gen.TieRelative Gen.TieRelativeF.")
 PARALLEL = True
